@@ -24,6 +24,9 @@ type Pipe struct {
 	readErr error
 	// OneByOne delivers at most this many bytes per Read (0 = as many as available).
 	MaxRead int
+	// Atomic is PIPE_BUF: a write of more bytes is delivered in pieces of at most this size with a
+	// scheduling point between pieces, as on a real pipe shared by several writers (0 = unlimited).
+	Atomic int
 }
 
 // NewPipe creates a pipe with the given capacity (0 = 65536, the Linux default).
@@ -68,6 +71,9 @@ func (p *Pipe) Write(b []byte) (int, error) {
 		k := len(b) - n
 		if k > free {
 			k = free
+		}
+		if p.Atomic > 0 && len(b) > p.Atomic && k > p.Atomic {
+			k = p.Atomic
 		}
 		p.buf = append(p.buf, b[n:n+k]...)
 		p.Chunks = append(p.Chunks, append([]byte(nil), b[n:n+k]...))
@@ -137,6 +143,11 @@ func (p *Pipe) Break(err error) {
 	p.wclosed = true
 	p.mu.Unlock()
 }
+
+// ObjID identifies the pipe for footprint declarations.
+//
+//go:norace
+func (p *Pipe) ObjID() uintptr { return uintptr(unsafe.Pointer(p)) }
 
 // Stream returns the concatenation of all bytes that entered the pipe.
 //
